@@ -7,9 +7,11 @@ require go.brendoncarroll.net/p2p v0.0.0
 require (
 	github.com/pkg/errors v0.9.1 // indirect
 	go.brendoncarroll.net/stdctx v0.0.0-20241118190518-40d09f4d11e7 // indirect
+	go.brendoncarroll.net/tai64 v0.0.0-20241118171318-6e12d283d5e4 // indirect
 	go.uber.org/atomic v1.7.0 // indirect
 	go.uber.org/multierr v1.6.0 // indirect
 	go.uber.org/zap v1.24.0 // indirect
+	golang.org/x/exp v0.0.0-20230522175609-2e198f4a06a1 // indirect
 )
 
 replace go.brendoncarroll.net/p2p => /repo
